@@ -136,4 +136,340 @@ Proof.
   - intros x [<-|[]]. right. lia.
 Qed.
 
+Definition result (m : mem) (t : atree) (m' : mem) (a' : addr) (mut : bool) : Prop :=
+  (mut = false /\ m' = m /\ a' = aroot t) \/ (mut = true /\ exists t', aroot t' = a' /\ post m t m' t').
+
+Lemma pre_old_kids m t : pre m t -> forall k, In (Some k) (akids t) -> kid_ok m t m k.
+Proof. intros Hp k Hk. apply old_kid_ok; auto. Qed.
+
+Lemma pre_copy m t : pre m t -> agen t <> g -> rep (hp m) t /\ cache_ok (is_root (aroot t)) (hp m) t.
+Proof. intros (_ & ? & _ & _ & ? & _) _. auto. Qed.
+
+Lemma replace_value_spec m a pk sv mbh gn isb ks c value csv m' a' mut :
+  let t := AN a pk sv mbh gn isb ks in
+  pre m t -> hp m a = Some c -> cell_is c t ->
+  replace_value H true g v1 rt m a c value csv = (m', a', mut) ->
+  result m t m' a' mut.
+Proof.
+  intros t Hp Hca Hci. unfold replace_value.
+  destruct (Bool.eqb (c_mbh c) (must_hash v1 value) && sv_eqb (c_sv c) value).
+  - intros E; inversion E; subst. left; auto.
+  - destruct (prep H g rt m a csv) as [m1 a1] eqn:Ep. intros E. injection E as Em Ea Emut. subst m' a' mut.
+    right. split; auto.
+    exists (AN a1 pk (Some value) (must_hash v1 value) g isb ks). split; auto.
+    pose proof Hp as (Hw & _).
+    eapply (finish H g rt m t m c csv m1 a1); eauto.
+    + lia.
+    + apply frame_refl.
+    + apply pre_copy; auto.
+    + intros c1 a0 Hd Hg Hpk Hmbh Hisb Hk Hsv. unfold cell_is in *. simpl.
+      destruct Hci as (? & ? & ? & ? & ? & ?). repeat split; auto; congruence.
+    + exact (pre_old_kids m t Hp).
+    + destruct Hp as (_ & _ & Hs & _). apply (sep_disjoint_kids t Hs).
+Qed.
+
+(* ---- kid lists built from the empty children array ---- *)
+Lemma in_one_kid i (k0 k : atree) : In (Some k) (set_nth i (Some k0) no_akids) -> k = k0.
+Proof.
+  intros Hin. apply in_set_nth_some in Hin. destruct Hin as [E|(j & _ & E)]; [congruence|].
+  rewrite nth_no_akids in E. discriminate.
+Qed.
+
+Lemma disjoint_one_kid i k0 : disjoint_kids (set_nth i (Some k0) no_akids).
+Proof.
+  apply disjoint_set_nth; [apply disjoint_no_akids|]. intros j kj x _ E. rewrite nth_no_akids in E. discriminate.
+Qed.
+
+Lemma in_two_kids i j (k0 k1 k : atree) :
+  In (Some k) (set_nth j (Some k1) (set_nth i (Some k0) no_akids)) -> k = k1 \/ k = k0.
+Proof.
+  intros Hin. apply in_set_nth_some in Hin. destruct Hin as [E|(j' & _ & E)]; [left; congruence|].
+  right. apply in_one_kid with (i := i). rewrite <- E. apply nth_In.
+  destruct (Nat.lt_ge_cases j' (length (set_nth i (Some k0) no_akids))); auto.
+  rewrite nth_overflow in E by auto. discriminate.
+Qed.
+
+Lemma disjoint_two_kids i j k0 k1 :
+  (forall x, In x (addrs k1) -> ~ In x (addrs k0)) ->
+  disjoint_kids (set_nth j (Some k1) (set_nth i (Some k0) no_akids)).
+Proof.
+  intros Hd. apply disjoint_set_nth; [apply disjoint_one_kid|].
+  intros j' kj x _ E Hx. assert (kj = k0).
+  { apply in_one_kid with (i := i). rewrite <- E. apply nth_In.
+    destruct (Nat.lt_ge_cases j' (length (set_nth i (Some k0) no_akids))); auto.
+    rewrite nth_overflow in E by auto. discriminate. }
+  subst. auto.
+Qed.
+
+(* prepare the root of t and shorten its partial key: the node that will hang below a new branch *)
+Lemma move_down m a pk sv mbh gn isb ks c pk2 m1 a1 :
+  let t := AN a pk sv mbh gn isb ks in
+  pre m t -> hp m a = Some c -> cell_is c t ->
+  prep H g rt m a true = (m1, a1) ->
+  post m t (wr m1 a1 (set_pk_c pk2)) (AN a1 pk2 sv mbh g isb ks).
+Proof.
+  intros t Hp Hca Hci Ep. pose proof Hp as (Hw & _).
+  eapply (finish H g rt m t m c true m1 a1); eauto.
+  - lia.
+  - apply frame_refl.
+  - apply pre_copy; auto.
+  - intros c1 a0 Hd Hg Hpk Hmbh Hisb Hk Hsv. unfold cell_is in *. simpl.
+    destruct Hci as (? & ? & ? & ? & ? & ?).
+    assert (c_sv c1 = c_sv c) by (rewrite Hsv; destruct (N.eqb (c_gen c) g); auto).
+    repeat split; auto; congruence.
+  - exact (pre_old_kids m t Hp).
+  - destruct Hp as (_ & _ & Hs & _). apply (sep_disjoint_kids t Hs).
+Qed.
+
+(* facts about the result of an operation, as a child of a new node *)
+Lemma post_kid_facts m t m' t' :
+  pre m t -> post m t m' t' ->
+  rep (hp m') t' /\ sep t' /\ good g t' /\ cache_ok false (hp m') t' /\ placed g m t (nx m') t'.
+Proof.
+  intros Hp Hq. pose proof (post_placed H g rt m t m' t' Hp Hq) as Hpl.
+  destruct Hq as (R1 & R2 & R3 & R4 & _). repeat split; auto.
+Qed.
+
+Lemma hwf_alloc m c : hwf m -> hwf (fst (alloc m c)).
+Proof. intros Hw x Hx. unfold alloc in *. simpl in *. rewrite upd_neq by lia. apply Hw. lia. Qed.
+
+Lemma new_branch_is a pk sv mbh ks : cell_is (new_branch g pk sv mbh (map oroot ks)) (AN a pk sv mbh g true ks).
+Proof. unfold cell_is, new_branch; simpl. repeat split; auto. Qed.
+
+Lemma placed_mono m t n1 n2 k : (n1 <= n2)%N -> placed g m t n1 k -> placed g m t n2 k.
+Proof. intros Hle Hp x Hx. destruct (Hp x Hx) as [?|[? ?]]; [left; auto | right; split; auto; lia]. Qed.
+
+(* a new branch over the moved node T1 (and possibly a new leaf) *)
+Lemma hang_one m t m2 T1 i pk' sv' mbh' :
+  pre m t -> post m t m2 T1 ->
+  post m t (fst (alloc m2 (new_branch g pk' sv' mbh' (set_nth i (Some (aroot T1)) no_kids))))
+       (AN (nx m2) pk' sv' mbh' g true (set_nth i (Some T1) no_akids)).
+Proof.
+  intros Hp Hq. pose proof Hq as (_ & _ & _ & _ & Hw2 & Hle & F & _).
+  apply fresh_node_post; auto.
+  - intros a'. replace (set_nth i (Some (aroot T1)) no_kids) with (map oroot (set_nth i (Some T1) no_akids)).
+    + apply new_branch_is.
+    + rewrite map_set_nth. reflexivity.
+  - intros k Hin. apply in_one_kid in Hin. subst k. apply post_kid_facts; auto.
+  - apply disjoint_one_kid.
+Qed.
+
+Lemma hang_two m t m2 T1 i j lpk lv pk' sv' mbh' :
+  pre m t -> post m t m2 T1 ->
+  let m3 := fst (alloc m2 (new_leaf g v1 lpk lv)) in
+  post m t (fst (alloc m3 (new_branch g pk' sv' mbh'
+                             (set_nth j (Some (nx m2)) (set_nth i (Some (aroot T1)) no_kids)))))
+       (AN (nx m3) pk' sv' mbh' g true (set_nth j (Some (leaf_tree (nx m2) lpk lv)) (set_nth i (Some T1) no_akids))).
+Proof.
+  intros Hp Hq m3. pose proof Hq as (_ & _ & _ & _ & Hw2 & Hle & F & _).
+  destruct (post_kid_facts m t m2 T1 Hp Hq) as (K1 & K2 & K3 & K4 & K5).
+  assert (Hb1 : forall x, In x (addrs T1) -> (x < nx m2)%N) by (intros; eapply rep_bounded; eauto).
+  assert (Hn : ~ In (nx m2) (addrs T1)) by (intros Hx; specialize (Hb1 _ Hx); lia).
+  destruct (leaf_facts (hp m3) (nx m2) lpk lv) as (L1 & L2 & L3 & L4 & L5).
+  { unfold m3, alloc; simpl. apply upd_eq. }
+  apply fresh_node_post; auto.
+  - apply hwf_alloc; auto.
+  - unfold m3, alloc; simpl. lia.
+  - eapply frame_trans with (n1 := nx m); [lia | exact F |].
+    unfold m3, alloc; simpl. apply frame_fresh; [lia|]. intros c0 Hc0. rewrite Hw2 in Hc0 by lia. discriminate.
+  - intros a'.
+    replace (set_nth j (Some (nx m2)) (set_nth i (Some (aroot T1)) no_kids))
+      with (map oroot (set_nth j (Some (leaf_tree (nx m2) lpk lv)) (set_nth i (Some T1) no_akids))).
+    + apply new_branch_is.
+    + rewrite !map_set_nth. reflexivity.
+  - intros k Hin. apply in_two_kids in Hin. destruct Hin as [->| ->].
+    + split; [exact L1|]. split; [exact L2|]. split; [exact L3|]. split; [apply L4|].
+      intros x Hx. rewrite L5 in Hx. destruct Hx as [<-|[]]. right. unfold m3, alloc; simpl. lia.
+    + destruct (carried_upd H (hp m2) (nx m2) (new_leaf g v1 lpk lv) T1 Hn K1) as (C1 & C2).
+      split; [exact C1|]. split; [exact K2|]. split; [exact K3|]. split; [apply C2; auto|].
+      eapply placed_mono; [|exact K5]. unfold m3, alloc; simpl. lia.
+  - apply disjoint_two_kids. intros x Hx. rewrite L5 in Hx. destruct Hx as [<-|[]]. auto.
+Qed.
+
+(* a new branch over a new leaf only, or over nothing: the old node is dropped *)
+Lemma hang_leaf m t j lpk lv pk' sv' mbh' :
+  pre m t ->
+  let m1 := fst (alloc m (new_leaf g v1 lpk lv)) in
+  post m t (fst (alloc m1 (new_branch g pk' sv' mbh' (set_nth j (Some (nx m)) no_kids))))
+       (AN (nx m1) pk' sv' mbh' g true (set_nth j (Some (leaf_tree (nx m) lpk lv)) no_akids)).
+Proof.
+  intros Hp m1. pose proof Hp as (Hw & _).
+  destruct (leaf_facts (hp m1) (nx m) lpk lv) as (L1 & L2 & L3 & L4 & L5).
+  { unfold m1, alloc; simpl. apply upd_eq. }
+  apply fresh_node_post; auto.
+  - apply hwf_alloc; auto.
+  - unfold m1, alloc; simpl. lia.
+  - unfold m1, alloc; simpl. apply frame_fresh; [lia|]. intros c0 Hc0. rewrite Hw in Hc0 by lia. discriminate.
+  - intros a'. replace (set_nth j (Some (nx m)) no_kids)
+      with (map oroot (set_nth j (Some (leaf_tree (nx m) lpk lv)) no_akids)).
+    + apply new_branch_is.
+    + rewrite map_set_nth. reflexivity.
+  - intros k Hin. apply in_one_kid in Hin. subst k.
+    split; [exact L1|]. split; [exact L2|]. split; [exact L3|]. split; [apply L4|].
+    intros x Hx. rewrite L5 in Hx. destruct Hx as [<-|[]]. right. unfold m1, alloc; simpl. lia.
+  - apply disjoint_one_kid.
+Qed.
+
+Lemma hang_none m t pk' sv' mbh' :
+  pre m t ->
+  post m t (fst (alloc m (new_branch g pk' sv' mbh' no_kids))) (AN (nx m) pk' sv' mbh' g true no_akids).
+Proof.
+  intros Hp. pose proof Hp as (Hw & _).
+  apply fresh_node_post; auto.
+  - lia.
+  - apply frame_refl.
+  - intros a'. rewrite <- map_oroot_no_akids. apply new_branch_is.
+  - intros k Hin. destruct (in_no_akids k Hin).
+  - apply disjoint_no_akids.
+Qed.
+
+Lemma alloc_eq m c : alloc m c = (fst (alloc m c), nx m).
+Proof. reflexivity. Qed.
+
+Lemma insert_in_leaf_spec m a pk sv mbh gn isb ks c k value m' a' mut :
+  let t := AN a pk sv mbh gn isb ks in
+  pre m t -> hp m a = Some c -> cell_is c t ->
+  insert_in_leaf H true g v1 rt m a c k value = (m', a', mut) ->
+  result m t m' a' mut.
+Proof.
+  intros t Hp Hca Hci. unfold insert_in_leaf.
+  assert (Epk : c_pk c = pk) by (unfold t, cell_is in Hci; tauto). rewrite Epk.
+  destruct (key_eqb pk k).
+  { apply replace_value_spec; auto. }
+  destruct (length k =? cpl k pk).
+  - destruct (length k <? length pk).
+    + destruct (prep H g rt m a true) as [m1 a1] eqn:Ep.
+      rewrite alloc_eq. intros E. injection E as Em Ea Emut. subst m' a' mut.
+      right. split; auto.
+      pose proof (move_down m a pk sv mbh gn isb ks c (skipn (S (cpl k pk)) pk) m1 a1 Hp Hca Hci Ep) as HT1.
+      eexists. split; [|exact (hang_one m t _ _ (nth (cpl k pk) pk 0) (firstn (cpl k pk) k) (Some value) (must_hash v1 value) Hp HT1)].
+      reflexivity.
+    + rewrite alloc_eq. intros E. injection E as Em Ea Emut. subst m' a' mut.
+      right. split; auto. eexists. split; [|exact (hang_none m t (firstn (cpl k pk) k) (Some value) (must_hash v1 value) Hp)]. reflexivity.
+  - destruct (length pk =? cpl k pk).
+    + rewrite (alloc_eq m). cbv zeta. rewrite alloc_eq. intros E. injection E as Em Ea Emut. subst m' a' mut.
+      right. split; auto. eexists.
+      split; [|exact (hang_leaf m t (nth (cpl k pk) k 0) (skipn (S (cpl k pk)) k) value (firstn (cpl k pk) k) (c_sv c) (c_mbh c) Hp)].
+      reflexivity.
+    + destruct (prep H g rt m a true) as [m1 a1] eqn:Ep.
+      rewrite (alloc_eq (wr m1 a1 _)). cbv zeta. rewrite alloc_eq. intros E. injection E as Em Ea Emut. subst m' a' mut.
+      right. split; auto.
+      pose proof (move_down m a pk sv mbh gn isb ks c (skipn (S (cpl k pk)) pk) m1 a1 Hp Hca Hci Ep) as HT1.
+      eexists.
+      split; [|exact (hang_two m t _ _ (nth (cpl k pk) pk 0) (nth (cpl k pk) k 0) (skipn (S (cpl k pk)) k) value
+                                (firstn (cpl k pk) k) None false Hp HT1)].
+      reflexivity.
+Qed.
+
+Lemma prefix_neq_nonempty (pk k : key) : is_prefix pk k = true -> key_eqb k pk = false -> 0 < length k.
+Proof. destruct k, pk; simpl; intros; try discriminate; lia. Qed.
+
+Lemma skipn_lt {A} n (l : list A) : 0 < length l -> length (skipn (S n) l) < length l.
+Proof. intros. rewrite skipn_length. lia. Qed.
+
+(* an old cell of the tree is not touched by allocating *)
+Lemma alloc_old m c x : hwf m -> (x < nx m)%N -> hp (fst (alloc m c)) x = hp m x.
+Proof. intros _ Hx. unfold alloc; simpl. apply upd_neq. lia. Qed.
+
+Lemma insert_spec : forall fuel m t k value m' a' mut,
+  length k < fuel -> pre m t ->
+  insert H true g v1 rt fuel m (Some (aroot t)) k value = (m', a', mut) -> result m t m' a' mut.
+Proof.
+  induction fuel as [|f IH]; intros m t k value m' a' mut Hlen Hp; [lia|].
+  destruct t as [a pk sv mbh gn isb ks]. set (t := AN a pk sv mbh gn isb ks) in *.
+  pose proof Hp as (Hw & Hr & Hs & Hg & Hc & Hrt).
+  destruct (rep_cell _ _ Hr) as (c & Hca & Hci). simpl in Hca.
+  assert (Hb : forall x, In x (addrs t) -> (x < nx m)%N) by (intros; eapply rep_bounded; eauto).
+  pose proof Hci as Hci'. unfold t, cell_is in Hci'. destruct Hci' as (Epk & Esv & Embh & Egn & Eisb & Eks).
+  change (aroot t) with a. cbn [insert]. rewrite Hca.
+  destruct (negb (c_isb c)).
+  { apply insert_in_leaf_spec; auto. }
+  rewrite Epk.
+  destruct (key_eqb k pk) eqn:Ekeq.
+  { apply replace_value_spec; auto. }
+  destruct (is_prefix pk k) eqn:Epre.
+  - (* the key continues below this branch *)
+    set (n := cpl k pk). set (idx := nth n k 0). set (rk := skipn (S n) k).
+    rewrite Eks, nth_map_oroot.
+    destruct (nth idx ks None) as [kt|] eqn:Ekt; simpl oroot; cbv iota beta.
+    + (* existing child: recurse *)
+      destruct (nth_some_in _ _ _ Ekt) as (Hkin & _).
+      assert (Hpk : pre m kt) by (apply (pre_kid H g rt m t kt Hp Hkin)).
+      destruct (insert H true g v1 rt f m (Some (aroot kt)) rk value) as [[m1 ch'] mutated] eqn:Erec.
+      assert (Hlen' : length rk < f).
+      { pose proof (prefix_neq_nonempty pk k Epre Ekeq). pose proof (skipn_lt n k H0). unfold rk. lia. }
+      destruct (IH m kt rk value m1 ch' mutated Hlen' Hpk Erec) as [(-> & -> & ->)|(-> & tk & Htk & Hq)].
+      * simpl. intros E. injection E as Em Ea Emut. subst. left; auto.
+      * simpl. destruct (prep H g rt m1 a true) as [m2 a2] eqn:Ep.
+        intros E. injection E as Em Ea Emut. subst m' a' mut. right. split; auto.
+        exists (AN a2 pk sv mbh g isb (set_nth idx (Some tk) ks)). split; auto.
+        pose proof Hq as (_ & _ & _ & _ & Hw1 & Hle1 & F1 & P8 & _).
+        assert (Hna : ~ In a (addrs kt)) by (apply (sep_root_not_in_kid t kt Hs Hkin)).
+        assert (Hca1 : hp m1 a = Some c).
+        { rewrite (fr_out _ _ _ _ _ _ _ F1); auto. apply Hb. apply (aroot_in_addrs t). }
+        eapply (finish H g rt m t m1 c true m2 a2); eauto.
+        -- eapply frame_lift_kid; eauto.
+        -- intros Hng. assert (Hold : oldt g kt).
+           { apply good_unfold in Hg. destruct Hg as (_ & Ho & _). apply Ho; auto. }
+           split.
+           ++ eapply frame_rep; eauto. intros x Hx. rewrite Hold in Hx. destruct Hx.
+           ++ apply (fr_cache _ _ _ _ _ _ _ F1); auto.
+              ** intros x Hx. rewrite Hold in Hx. destruct Hx.
+              ** intros r Er Hin. specialize (Hrt r Er Hin). simpl in Hrt. subst r. split; auto.
+                 unfold Model.is_root. rewrite Er. apply N.eqb_refl.
+        -- intros c1 a0 Hd Hg1 Hpk1 Hmbh1 Hisb1 Hk1 Hsv1. unfold cell_is. simpl.
+           assert (c_sv c1 = c_sv c) by (rewrite Hsv1; destruct (N.eqb (c_gen c) g); auto).
+           rewrite map_set_nth. simpl oroot. rewrite Htk. repeat split; auto; congruence.
+        -- intros k0 Hin. apply in_set_nth_some in Hin. destruct Hin as [E|(j & Hj & E)].
+           ++ inversion E; subst k0. eapply new_kid_ok; eauto.
+           ++ destruct (nth_some_in _ _ _ E) as (Hin0 & _). apply old_kid_ok; auto.
+              intros x Hx. apply (fr_out _ _ _ _ _ _ _ F1).
+              ** apply Hb. apply (kid_in_addrs t k0 x Hin0 Hx).
+              ** intros Hx'. eapply (sep_kids_disjoint t j idx k0 kt x); eauto.
+        -- apply disjoint_set_nth; [apply (sep_disjoint_kids t Hs)|].
+           intros j kj x Hj E Hx Hx'. destruct (nth_some_in _ _ _ E) as (Hin0 & _).
+           destruct (P8 _ Hx) as [Hx0|Hx0].
+           ++ eapply (sep_kids_disjoint t idx j kt kj x); eauto.
+           ++ assert ((x < nx m)%N) by (apply Hb; apply (kid_in_addrs t kj x Hin0 Hx')). lia.
+    + (* no child there: a new leaf *)
+      rewrite (alloc_eq m). cbv zeta.
+      set (m1 := fst (alloc m (new_leaf g v1 rk value))).
+      destruct (prep H g rt m1 a true) as [m2 a2] eqn:Ep.
+      intros E. injection E as Em Ea Emut. subst m' a' mut. right. split; auto.
+      exists (AN a2 pk sv mbh g isb (set_nth idx (Some (leaf_tree (nx m) rk value)) ks)). split; auto.
+      assert (Hw1 : hwf m1) by (apply hwf_alloc; auto).
+      assert (Hold : forall x, (x < nx m)%N -> hp m1 x = hp m x) by (intros; apply alloc_old; auto).
+      assert (Hn : ~ In (nx m) (addrs t)) by (intros Hx; specialize (Hb _ Hx); lia).
+      eapply (finish H g rt m t m1 c true m2 a2); eauto.
+      * unfold m1, alloc; simpl. lia.
+      * unfold m1, alloc; simpl. apply frame_fresh; [lia|]. intros c0 Hc0. rewrite Hw in Hc0 by lia. discriminate.
+      * rewrite Hold; auto. apply Hb. apply (aroot_in_addrs t).
+      * intros _. destruct (carried_upd H (hp m) (nx m) (new_leaf g v1 rk value) t Hn Hr) as (C1 & C2).
+        split; [exact C1 | apply C2; auto].
+      * intros c1 a0 Hd Hg1 Hpk1 Hmbh1 Hisb1 Hk1 Hsv1. unfold cell_is. simpl.
+        assert (c_sv c1 = c_sv c) by (rewrite Hsv1; destruct (N.eqb (c_gen c) g); auto).
+        rewrite map_set_nth. simpl oroot. repeat split; auto; congruence.
+      * intros k0 Hin. apply in_set_nth_some in Hin. destruct Hin as [E|(j & Hj & E)].
+        -- inversion E; subst k0. apply (fresh_leaf_kid_ok m t m rk value); auto. lia.
+        -- destruct (nth_some_in _ _ _ E) as (Hin0 & _). apply old_kid_ok; auto.
+           intros x Hx. apply Hold. apply Hb. apply (kid_in_addrs t k0 x Hin0 Hx).
+      * apply disjoint_set_nth; [apply (sep_disjoint_kids t Hs)|].
+        intros j kj x Hj E Hx Hx'. destruct (nth_some_in _ _ _ E) as (Hin0 & _).
+        simpl in Hx. destruct Hx as [<-|[]].
+        assert ((nx m < nx m)%N) by (apply Hb; apply (kid_in_addrs t kj _ Hin0 Hx')). lia.
+  - (* the keys diverge inside the partial key: a new branch above this one *)
+    destruct (prep H g rt m a true) as [m1 a1] eqn:Ep.
+    pose proof (move_down m a pk sv mbh gn isb ks c (skipn (S (cpl k pk)) pk) m1 a1 Hp Hca Hci Ep) as HT1.
+    destruct (length k <=? cpl k pk).
+    + rewrite alloc_eq. intros E. injection E as Em Ea Emut. subst m' a' mut. right. split; auto.
+      eexists. split; [|exact (hang_one m t _ _ (nth (cpl k pk) pk 0) (firstn (cpl k pk) k) (Some value) (must_hash v1 value) Hp HT1)].
+      reflexivity.
+    + rewrite (alloc_eq (wr m1 a1 _)). cbv zeta. rewrite alloc_eq.
+      intros E. injection E as Em Ea Emut. subst m' a' mut. right. split; auto.
+      eexists.
+      split; [|exact (hang_two m t _ _ (nth (cpl k pk) pk 0) (nth (cpl k pk) k 0) (skipn (S (cpl k pk)) k) value
+                                (firstn (cpl k pk) k) None false Hp HT1)].
+      reflexivity.
+Qed.
+
 End Insert.
